@@ -274,7 +274,11 @@ def check_one(run, model, am, opts, nrel, rng, groups=None):
         counts = {}
         for z in am.zs:
             counts[impl.SYM[z]] = counts.get(impl.SYM[z], 0) + 1
-        probs = validator.validate(s, counts, len(set(tuple(sorted(e)) for e in am.edges)), len(set(am.mass) | set(am.rad)))
+        simple_edges = set(tuple(sorted(e)) for e in am.edges)
+        probs = validator.validate(s, counts, len(simple_edges), len(set(am.mass) | set(am.rad)),
+                                   bond_elements=[(impl.SYM[am.zs[u]], impl.SYM[am.zs[v]]) for u, v in simple_edges],
+                                   label_elements=[(impl.SYM[am.zs[i]], am.mass.get(i), am.rad.get(i)) for i in sorted(set(am.mass) | set(am.rad))],
+                                   atomic_number=impl.ZOF)
         if probs:
             hit("C05", "emitted string violates grammar/layout: " + "; ".join(probs[:3]), {"tucan": s})
 
